@@ -100,6 +100,10 @@ def ev_N12():
         R("T", 0, "T", ["A02"], 30),
         ["add", "Q", ["A01"], 30, {"compositions": [{"x": 1.0}]}],
         ["add", "Q", ["B02", "B02"], [7.5, 30], {"compositions": [{"x": 1.0}, {"T.column_01": 1.0}]}],
+        # Labware.add called directly with a 2-D block of wells and one composition per well (column-major pairing)
+        ["add", "Q", {"$w2d": ["Q", 0, 2, 0, 2]}, 7.5, {"compositions": [{"x": 1.0}, {"y": 1.0}, {"a": 1.0}, {"z": 1.0}]}],
+        ["add", "Q", {"$w2d": ["Q", 0, 3, 0, 2]}, [7.5, 30, 7.5, 30, 7.5, 30], {"compositions": [{"x": 1.0}, {"y": 1.0}, {"a": 1.0}, {"x": 0.25, "a": 0.75}, {"z": 1.0}, {"x": 1.0}]}],
+        ["add", "P", {"$a": [["A01", "A02"], ["B01", "B02"]]}, {"$a": [[7.5, 30], [10, 20]]}, {"compositions": [{"x": 1.0}, {"y": 1.0}, {"a": 1.0}, {"z": 1.0}]}],
     ]
     return core, full
 
